@@ -96,6 +96,8 @@ func runCase(c *vh.Ctx, scratch string, cc caseCfg, facts factsT, ops []op, reco
 	dupAt := map[int64]string{}
 	inWal := map[int64]bool{}     // currently in some WAL file
 	rejectedGone := map[int64]bool{}
+	replayedBy := map[int64]string{}
+	storedBefore := map[int64]int{}
 	walGone := map[int64]string{} // event after which the id's last WAL-file copy was removed
 	exec := func(o op) {
 		full0 := ingest.VerifC07FullCount()
@@ -125,6 +127,14 @@ func runCase(c *vh.Ctx, scratch string, cc caseCfg, facts factsT, ops []op, reco
 		}
 		pending := st.q > 0 || st.inf || st.ch > 0
 		for _, id := range res.acked {
+			// which replaying event put a second copy of the row into memory / Parquet (the file may stay on
+			// disk when an entry of it was rejected, so "the event that removed the file" is not it)
+			if o.kind == "tick" || o.kind == "tickf" || o.kind == "restart" || o.kind == "restartf" {
+				if hasID(s.replayed, id) {
+					replayedBy[id] = strings.TrimSuffix(o.kind, "f")
+				}
+			}
+			storedBefore[id] = countID(st.stored, id)
 			nowIn := hasID(st.active, id)
 			for _, f := range st.rot {
 				nowIn = nowIn || hasID(f, id)
@@ -215,6 +225,9 @@ func runCase(c *vh.Ctx, scratch string, cc caseCfg, facts factsT, ops []op, reco
 		case n > 1:
 			res.dup[id] = dupAt[id]
 			res.cause[id] = "wal-replayed-by-" + walGone[id]
+			if rb, ok := replayedBy[id]; ok {
+				res.cause[id] = "wal-replayed-by-" + rb
+			}
 			if s.store.falseFail[id] {
 				// by cause: every storage write of the row's flush succeeded, the flush was still reported
 				// failed (flag raised), so the maintenance replay stored the row again
